@@ -86,6 +86,7 @@ fn run(args: vcore::Args) -> ! {
     model::run(&report, args.tier);
     if std::env::var_os("C09_SKIP_CONFORMANCE").is_none() {
         conform::run(&report, args.tier);
+        conform::interval_long_running(&report, args.tier);
     } else {
         report.cap_hit("conformance replay skipped by C09_SKIP_CONFORMANCE");
     }
